@@ -284,10 +284,30 @@ class NP:
         a.fill(v)
         return a
     def empty(self, shape, **k):
+        g = _generic_alloc(shape, Uninit())
+        if g is not None:
+            return g
         a = _np.empty(_shape(shape), dtype=object).view(OA)
         for i in _np.ndindex(a.shape):
             a[i] = Uninit()
         return a
+    def eye(self, n, *a, **k):
+        return _np.eye(n, *a, **k).astype(object).view(OA)
+
+    def mean(self, x, *a, **k):
+        if type(x).__name__ == "VArr":
+            return x.mean()
+        if _has_sym(x):
+            r = obj(x)
+            return _np.ndarray.mean(r, *a, **k)
+        return _np.mean(x, *a, **k)
+
+    def add(self, a, b, *r, **k):
+        return a + b
+
+    def divide(self, a, b, *r, **k):
+        return a / b
+
     def zeros_like(self, x, **k):
         if isinstance(x, _np.ndarray): return self.zeros(x.shape)
         raise Unsupported("zeros_like of generic")
@@ -617,7 +637,19 @@ class NP:
                 raise Unsupported("norm axis")
             return _np.linalg.norm(x, ord=ord, axis=axis, keepdims=keepdims)
         def inv(self, m):
-            if _has_sym(m): raise Unsupported("linalg.inv on symbolic matrix")
+            if _has_sym(m):
+                a = obj(m)
+                # inverse of a pure translation matrix [[I, t], [0, 1]] is [[I, -t], [0, 1]]
+                if a.ndim == 2 and a.shape[0] == a.shape[1]:
+                    d = a.shape[0] - 1
+                    lin_ok = all((not isinstance(a[i, j], (SV, SB))) and a[i, j] == (1 if i == j else 0) for i in range(d + 1) for j in range(d))
+                    last_ok = (not isinstance(a[d, d], (SV, SB))) and a[d, d] == 1
+                    if lin_ok and last_ok:
+                        out = a.copy().view(OA)
+                        for i in range(d):
+                            out[i, d] = -a[i, d]
+                        return out
+                raise Unsupported("linalg.inv of a symbolic matrix that is not a pure translation")
             return _np.linalg.inv(m)
         def det(self, m):
             if _has_sym(m): raise Unsupported("linalg.det symbolic")
